@@ -8,9 +8,9 @@ import (
 	"unsafe"
 
 	ringz "verifharness/gen/syncringshim"
-	stime "verifharness/internal/sched/time"
 	"verifharness/internal/sched"
 	"verifharness/internal/sched/drive"
+	stime "verifharness/internal/sched/time"
 )
 
 // ringTarget drives the shimmed copy of ringz/sync.go (same code, atomics
